@@ -146,6 +146,14 @@ EXH_ALPHABET6 = ['L i0', 'L i0 i1', 'L e1 F1', 'X 1 3', 'R 1', 'J 0 i @ 0 m + e0
                  'K 0 i', 'K 3 i']
 
 
+# wave 6: the boundary seeded C13-v2 lives on - what MIR_link does with the EXPORT items of the modules it walks.  One name
+# with several definitions registered between the loads and one link (older exporter queued before the importer, newer
+# exporter / external registered after it), observed through paths that are not inlined (big function, address in a
+# register, generator interfaces), and modules that declare `export` / `forward` of a name they do NOT define (the item
+# finds itself in the module table: nothing may be published for it, and nothing may follow its ref_def)
+EXH_ALPHABET7 = ['R 1', 'L e0 B0', 'L e0 F0', 'L i0', 'L e0', 'L f0 e0', 'L e0 f0 i1', 'X 0 1', 'K 0 i', 'K 0 g', 'K 1 l']
+
+
 def exhaustive(maxlen, alphabet=None):
     out = []
     alphabet = alphabet or EXH_ALPHABET
@@ -328,11 +336,17 @@ def differs(a, b, prop):
 
 def shrink(impl, model, h, prop=False):
     ops = [o.strip() for o in h.split(';') if o.strip()]
+    # the kind of failure is kept: a history on which the implementation answers wrongly is not shrunk into one on
+    # which it does not terminate (and vice versa) - these are different defects (and a hanging candidate costs seconds)
+    hang0 = is_hang(impl_line(impl, ' ; '.join(ops)))
 
     def fails(sub):
         s = ' ; '.join(sub)
         b = model_line(model, s)
-        return b is not None and differs(impl_line(impl, s), b, prop)
+        if b is None:
+            return False
+        a = impl_line(impl, s)
+        return is_hang(a) == hang0 and differs(a, b, prop)
     sub = vlib.shrink_list(ops, fails)
     # also try dropping single declarations inside each L op
     changed = True
@@ -489,7 +503,7 @@ def run(chk):
     ncorpus = len(hs)
     ex = (exhaustive(4 if quick else 6) + exhaustive(3 if quick else 5, EXH_ALPHABET2)
           + exhaustive(4 if quick else 5, EXH_ALPHABET3) + exhaustive(4 if quick else 5, EXH_ALPHABET5)
-          + exhaustive(3 if quick else 5, EXH_ALPHABET6))
+          + exhaustive(3 if quick else 5, EXH_ALPHABET6) + exhaustive(4 if quick else 5, EXH_ALPHABET7))
     if QUIET['ok']:
         ex += [h for h in exhaustive(5 if quick else 6, EXH_ALPHABET4) if 'q' in h and h.startswith('R 1')]
     rng = chk.rng('hist')
@@ -502,6 +516,11 @@ def run(chk):
         for _ in range(6000):   # length 4-6 over the re-entrant alphabet
             t = [rng6.choice(EXH_ALPHABET6) for _ in range(rng6.choice([4, 5, 6]))]
             t[-1] = rng6.choice([o for o in EXH_ALPHABET6 if o[0] in 'KJ'])
+            ex.append(' ; '.join(t))
+        rng7 = chk.rng('batch-exh')   # own stream: length 5-7 over the several-definitions-per-batch alphabet
+        for _ in range(3000):
+            t = [rng7.choice(EXH_ALPHABET7) for _ in range(rng7.choice([5, 6, 7]))]
+            t[-1] = rng7.choice([o for o in EXH_ALPHABET7 if o[0] == 'K'])
             ex.append(' ; '.join(t))
     hs += ex
     nrand = 20000 if quick else 150000
@@ -532,7 +551,8 @@ def run(chk):
                       'and >= 3 ops; exhaustive part = all histories over %d fixed ops up to length %d and over %d other ops '
                       'up to length %d and over %d more (rejected loads, failed links, retries, NULL-interface links) up to '
                       'length %d and over 11 ops defining ONE name in every way (functions, data, section, proto, external, resolver '
-                      'answer) up to the same length; a history GOES ON after a failed link and - when fixes/C13-1.patch is in - after a rejected '
+                      'answer) up to the same length and over 11 ops with several definitions of one name per link batch + definition-less '
+                      'export/forward modules (wave 6) up to the same length; a history GOES ON after a failed link and - when fixes/C13-1.patch is in - after a rejected '
                       'load' % (len(EXH_ALPHABET), 4 if quick else 6, len(EXH_ALPHABET2), 3 if quick else 5,
                                 len(EXH_ALPHABET3), 4 if quick else 5))
     for h in hs[ncorpus + len(ex):][:4]:
@@ -569,17 +589,24 @@ def run(chk):
         chk.dist('links_completed_after_error', min(4, sum(1 for s_ in steps[errs[0]:] if s_.startswith('ok res='))) if errs else 0)
     prop_bad = [x for x in bad if differs(x[1], x[2], True)]
     seen = set()
-    for h, a, b in prop_bad[:40]:
-        small = shrink(impl, model, h, True)
-        if small in seen:
-            continue
-        seen.add(small)
-        ia = impl_line(impl, small)
-        mb = model_line(model, small)
-        chk.finding('diff:' + small, dict(history=small, impl=ia, model=mb, original=h),
-                    'C13 %s on history: %s' % (classify(small, *prop_pair(ia, mb)), small))
-        if len(seen) >= 3:
-            break
+    # wrong answers first (up to 3 shrunk witnesses, 2 when some history also hangs), then one history on which the
+    # implementation does not terminate
+    wrong = [x for x in prop_bad if not is_hang(x[1])]
+    hung = [x for x in prop_bad if is_hang(x[1])]
+    for group, quota in ((wrong[:40], 2 if hung else 3), (hung[:5], 1)):
+        got = 0
+        for h, a, b in group:
+            small = shrink(impl, model, h, True)
+            if small in seen:
+                continue
+            seen.add(small)
+            ia = impl_line(impl, small)
+            mb = model_line(model, small)
+            chk.finding('diff:' + small, dict(history=small, impl=ia, model=mb, original=h),
+                        'C13 %s on history: %s' % (classify(small, *prop_pair(ia, mb)), small))
+            got += 1
+            if got >= quota:
+                break
     if bad and not prop_bad:
         h, a, b = bad[0]
         small = shrink(impl, model, h)
